@@ -49,35 +49,43 @@ def run(ctx):
     items = vec_layout(hs)
     offs = offsets(items)
 
-    def hi_lo(i, fld):
-        """items i, i+1 are (x >> 8) as u8, (x & 0xff) as u8 of self.<fld>"""
-        if i + 1 >= len(items):
-            return False
-        a, b = peel(items[i]['value'], casts=True), peel(items[i + 1]['value'], casts=True)
+    # byte-level writer layout, bit-exact (vlib.layout.byte_layout): the same for push((x >> 8) as u8) ... and for
+    # extend_from_slice(&x.to_be_bytes())
+    opc_vals = [v for _, _, v in field_writes(hp, '_opcode')] + [v for _, _, v in field_writes(hr, '_opcode')]
+    from vlib.bits import BitEval
 
-        def src(e):
-            e = peel(e, casts=True)
-            if isinstance(e, tuple) and e[0] == 'entry' and Fn.path_of(e[1])[-1:] == [('f', fld)]:
-                return True
-            return False
-        return isinstance(a, tuple) and a[0] == 'bin' and a[1] == 'Shr' and const_val(a[3]) == 8 and src(a[2]) and \
-            isinstance(b, tuple) and b[0] == 'bin' and b[1] == 'BitAnd' and const_val(b[3]) == 0xff and src(b[2])
-    rep.check(r1, len(items) == 12 and all(it['must'] for it in items), 'header:writer-length', '%d bytes pushed, all unconditional' % len(items), '%s:%d' % (hs.file, hs.line))
+    def opcode_is_4bit(v):
+        v0 = peel(v, casts=False)
+        if isinstance(peel(v0), tuple) and peel(v0)[0] == 'entry' and Fn.path_of(peel(v0)[1])[-1:] == [('f', '_opcode')]:
+            return True          # a copy of another header's opcode
+        b = BitEval(lambda e: ('w', 16) if isinstance(e, tuple) and e[0] in ('entry', 'phi', 'modby') else None).bits(v0)
+        return b is not None and all(x == 0 for x in (list(b) + [0] * 8)[4:8])
+
+    def hsrc(e):
+        if isinstance(e, tuple) and e[0] == 'entry' and Fn.root_of(e[1]) == ('deref', ('param', 1)) and len(Fn.path_of(e[1])) == 1:
+            nm = Fn.path_of(e[1])[0][1]
+            if nm in ('id', 'flags', 'qdcount', 'ancount', 'nscount', 'arcount'):
+                return (nm, 16)
+            if nm in ('_qr', '_aa', '_tc', '_rd', '_ra'):
+                return (nm, 1)
+            if nm == '_opcode':
+                return [('in', '_opcode', k) for k in range(4)] + [0] * 4
+        return None
+    bl = byte_layout(hs, items, source=hsrc)
+    wb = [x[0] for x in bl]
+    rep.check(r1, len(wb) == 12 and all(it['must'] and not it['in_loop'] for it in items) and all(opcode_is_4bit(v) for v in opc_vals) and bool(opc_vals), 'header:writer-length',
+              '%d header bytes appended, all unconditional; every value stored into _opcode has at most 4 bits: %s' % (len(wb), all(opcode_is_4bit(v) for v in opc_vals)), '%s:%d' % (hs.file, hs.line))
     for i, fld in [(0, 'id'), (4, 'qdcount'), (6, 'ancount'), (8, 'nscount'), (10, 'arcount')]:
-        rep.check(r1, hi_lo(i, fld), 'header:write:' + fld, 'bytes %d..%d are the big-endian %s' % (i, i + 1, fld), items[i]['loc'] if i < len(items) else '')
+        rep.check(r1, wb[i:i + 2] == [('field', fld, 1), ('field', fld, 0)], 'header:write:' + fld, 'bytes %d..%d are the big-endian %s: %s' % (i, i + 1, fld, wb[i:i + 2]), '%s:%d' % (hs.file, hs.line))
     # flag byte: bit positions
-    fb = items[2]['value'] if len(items) > 2 else None
+    fbits = bl[2][2] if len(bl) > 2 else None
     shifts = {}
-    if fb is not None:
-        for x in walk(fb):
-            if isinstance(x, tuple) and x[0] == 'bin' and x[1] == 'Shl':
-                src = peel(x[2], casts=True)
-                if isinstance(src, tuple) and src[0] == 'entry':
-                    shifts[Fn.path_of(src[1])[-1][1]] = const_val(x[3])
-            if isinstance(x, tuple) and x[0] == 'cast':
-                src = peel(x[2], casts=True)
-                if isinstance(src, tuple) and src[0] == 'entry' and Fn.path_of(src[1])[-1][1] == '_rd':
-                    shifts.setdefault('_rd', 0)
+    if fbits:
+        for pos_, b_ in enumerate(fbits):
+            if isinstance(b_, tuple) and b_[2] == 0:
+                shifts[b_[1]] = pos_
+        if fbits[3:7] != [('in', '_opcode', k) for k in range(4)]:
+            shifts.pop('_opcode', None)
     pshift = {}
     for fld in ['_qr', '_opcode', '_rd']:
         for _, _, v in field_writes(hp, fld):
@@ -85,8 +93,8 @@ def run(ctx):
                 if isinstance(x, tuple) and x[0] == 'bin' and x[1] == 'Shr' and const_val(x[3]) is not None:
                     pshift[fld] = const_val(x[3])
     ok = all(f_ in shifts and f_ in pshift and pshift[f_] == shifts[f_] + 8 for f_ in ['_qr', '_opcode', '_rd']) and pshift.get('_qr') == 15 and pshift.get('_opcode') == 11 and pshift.get('_rd') == 8
-    rep.check(r1, ok, 'header:flag-bits', 'parser reads QR/OPCODE/RD at bits %s of the flags word; serializer writes them at bits %s of the first flags byte' % (pshift, shifts), items[2]['loc'] if len(items) > 2 else '')
-    rep.check(r1, len(items) > 3 and const_val(items[3]['value']) == 0, 'header:second-flag-byte', 'RA/Z/RCODE byte is 0')
+    rep.check(r1, ok, 'header:flag-bits', 'parser reads QR/OPCODE/RD at bits %s of the flags word; serializer writes them at bits %s of the first flags byte' % (pshift, shifts), '%s:%d' % (hs.file, hs.line))
+    rep.check(r1, len(wb) > 3 and wb[3] == ('const', 0), 'header:second-flag-byte', 'RA/Z/RCODE byte is 0')
     # repl: field copies
     want_w = {'id': 'id', '_opcode': '_opcode', '_rd': '_rd', 'qdcount': 'qdcount', 'ancount': 'qdcount'}
     for fld, srcf in want_w.items():
@@ -216,8 +224,28 @@ def run(ctx):
             kinds.append('?')
     # collapse repeats
     coll = [k for i, k in enumerate(kinds) if i == 0 or kinds[i - 1] != k]
-    rep.check(r3, coll == ['name', 'type_', 'class', 'ttl', 'rdlen', 'rdata'] and kinds.count('type_') == 2 and kinds.count('class') == 2 and kinds.count('ttl') == 4 and kinds.count('rdlen') == 2,
-              'rr:wire-order', 'record serialised as %s' % coll, '%s:%d' % (rs.file, rs.line))
+    # the fixed-size middle part, byte-exact and big-endian whatever the spelling (push of shifted bytes / to_be_bytes)
+    def rsrc(e):
+        e0 = e
+        if isinstance(e0, tuple) and e0[0] == 'phi':
+            # `if rdlen == 0 { rdata.len() as u16 } else { rdlen }`: the record's length word either way
+            al_ = [peel(a, casts=True) for a in e0[1]]
+            if len(al_) == 2 and any(isinstance(a, tuple) and a[0] == 'entry' and Fn.path_of(a[1])[-1:] == [('f', 'rdlen')] for a in al_) and \
+                    any(is_call(a, r'len$') and 'rdata' in short(a) for a in al_):
+                return ('rdlen', 16)
+        if is_call(e0, r'convert::From<[^>]*>>::from$|convert::From::from$|convert::Into::into$|Into<[^>]*>>::into$') and e0[2]:
+            e0 = peel(e0[2][0], unwraps=False)
+        if isinstance(e0, tuple) and e0[0] == 'entry' and Fn.root_of(e0[1]) == ('deref', ('param', 1)) and len(Fn.path_of(e0[1])) == 1:
+            nm = Fn.path_of(e0[1])[0][1]
+            w = {'type_': 16, 'class': 16, 'ttl': 32, 'rdlen': 16}.get(nm)
+            if w:
+                return (nm, w)
+        return None
+    mid = [x for x, k_ in zip(it, kinds) if k_ in ('type_', 'class', 'ttl', 'rdlen')]
+    mb = [x[0] for x in byte_layout(rs, mid, source=rsrc)]
+    want_mid = [('field', 'type_', 1), ('field', 'type_', 0), ('field', 'class', 1), ('field', 'class', 0)] + [('field', 'ttl', k) for k in (3, 2, 1, 0)] + [('field', 'rdlen', 1), ('field', 'rdlen', 0)]
+    rep.check(r3, coll == ['name', 'type_', 'class', 'ttl', 'rdlen', 'rdata'] and mb == want_mid and all(x['must'] and not x['in_loop'] for x in mid),
+              'rr:wire-order', 'record serialised as %s; fixed part bytes %s' % (coll, ['%s.%s' % (b[1], b[2]) if b[0] == 'field' else str(b) for b in mb]), '%s:%d' % (rs.file, rs.line))
     qs = F.fn('%squery::<impl std::convert::From<&%squery::DNSQuery> for std::vec::Vec<u8>>::from' % (D, D))
     it = vec_layout(qs)
     kinds = ['name' if 'name' in short(x['value']) else ('type_' if 'type_' in short(x['value']) else ('class' if 'class' in short(x['value']) else '?')) for x in it]
